@@ -318,9 +318,28 @@ fn check_case(l: &mut Local<'_>, cfg: ModeCfg, map: &Beatmap, setts: &[Setting],
 
 fn main() {
     let ctx = Ctx::from_env_caps("C15", 50, 1500);
-    ctx.rule("case = (mode configuration, grammar map); per case and setting a BFS over all histories of next / nth(k) / len / size_hint (+ terminal std adaptors step_by, skip, collect, last, count, zip) on a fresh gradual difficulty calculator, and of next / nth / last / len on a gradual performance calculator; state key = (reference position, calls after exhaustion <= 2); settings = no mod, DT, for mania also Invert / HoldOff / both / Random on maps of <= 4 notes in two columns (lists that the mods shorten or empty), and (on maps of <= 4 objects) a Difficulty that itself carries passed_objects(0|1|2); reference = plain next() iteration of a fresh calculator built from the same Difficulty; non-trivial = calculator yields at least one value");
+    ctx.rule("case = (mode configuration, grammar map); per case and setting a BFS over all histories of next / nth(k) / len / size_hint (+ terminal std adaptors step_by, skip, collect, last, count, zip) on a fresh gradual difficulty calculator, and of next / nth / last / len on a gradual performance calculator; state key = (reference position, calls after exhaustion <= 2); settings = no mod, DT, for mania also Invert / HoldOff / both / Random on maps of <= 4 notes in two columns (lists that the mods shorten or empty), and (on maps of <= 4 objects) a Difficulty that itself carries passed_objects(0|1|2); reference = plain next() iteration of a fresh calculator built from the same Difficulty; universes 'overflow-checks/vdebug/*' repeat the search on maps of <= 2/3 objects in workers built with overflow checks and debug assertions; non-trivial = calculator yields at least one value");
     ctx.assume("values themselves are C02/C03's business; here only the protocol (which value, None, len) is decided");
 
+    // the same protocol in a build with overflow checks and debug assertions (an index or length computation that wraps
+    // silently in release panics here): small maps, every mode configuration, isolated workers
+    {
+        let root = std::path::PathBuf::from(std::env::var("VERIF_ROOT").unwrap_or_else(|_| "/verif".into()));
+        ctx.set_worker_exe(Some(root.join("target/vdebug/c15")));
+        for cfg in MODE_CFGS.iter() {
+            let kinds = if cfg.src == 3 { vec![Kind::Circle, Kind::Hold(300)] } else { vec![Kind::Circle, Kind::Slider2, Kind::Spinner(600)] };
+            let alpha = Alphabet::product(&kinds, &[150], &[PosK::Far], &[0], &[0]);
+            let n_max = ctx.pick(2u32, 3);
+            let setts = [Setting::nm()];
+            let name = format!("overflow-checks/vdebug/{}to{}/N<={n_max}", cfg.src, cfg.dst);
+            ctx.universe_isolated(&name, alpha.count_upto(n_max), 20.0, 2048, |idx, l| {
+                let spec = MapSpec::new(cfg.src, alpha.seq(idx, n_max));
+                let map = spec.decode();
+                check_case(l, *cfg, &map, &setts, 8, &|| format!("cfg={cfg:?}\nspec={}\n--- .osu ---\n{}", spec.describe(), spec.text()));
+            });
+        }
+        ctx.set_worker_exe(None);
+    }
     let n_max: u32 = ctx.pick(5, 6);
     let depth = 12;
     for cfg in MODE_CFGS.iter() {
